@@ -215,6 +215,39 @@ pub fn run(tier: Tier) -> i32 {
             judge(&rep, "cn=long", &[("cn".to_string(), vec![sv.clone(), lv.clone()]), ("sn".to_string(), vec![sv.clone()])], LenForm::Minimal, &evals, &mixed);
         }
     });
+    // counts: attributes with n values (valid text except for one invalid value at a chosen
+    // index, or none), and entries with n attributes, for n up to 300
+    {
+        let counts: Vec<usize> = (4..=40).chain([57, 58, 59, 60, 63, 64, 65, 66, 100, 127, 128, 129, 255, 256, 257, 300]).collect();
+        par_for(counts.len() as u64, |i| {
+            let n = counts[i as usize];
+            let base: Vec<Vec<u8>> = (0..n).map(|k| format!("value-{}", k).into_bytes()).collect();
+            judge(&rep, "cn=wide", &[("member".to_string(), base.clone())], LenForm::Minimal, &evals, &mixed);
+            for bad in [0usize, 1, n / 2, n.saturating_sub(2), n - 1] {
+                let mut v = base.clone();
+                v[bad] = vec![0xff, 0xfe];
+                judge(&rep, "cn=wide", &[("member".to_string(), v.clone())], LenForm::Minimal, &evals, &mixed);
+                judge(&rep, "cn=wide", &[("cn".to_string(), vec![b"x".to_vec()]), ("member".to_string(), v)], LenForm::Minimal, &evals, &mixed);
+            }
+            // n attributes, every third one binary, every fifth one without values
+            let attrs: Vec<(String, Vec<Vec<u8>>)> = (0..n)
+                .map(|k| (format!("attr{}", k), if k % 5 == 4 { vec![] } else if k % 3 == 2 { vec![vec![0x80, k as u8]] } else { vec![format!("t{}", k).into_bytes(), b"u".to_vec()] }))
+                .collect();
+            judge(&rep, "cn=many", &attrs, LenForm::Minimal, &evals, &mixed);
+        });
+        // values that begin with characters a "clean-up" might strip or special-case: byte order
+        // mark, zero-width space, NUL, newline, non-breaking space - as text and next to a binary value
+        for lead in ["\u{feff}", "\u{feff}\u{feff}", "\u{200b}", "\0", "\n", "\r\n", "\u{a0}", "\t", "\u{fffe}", "\u{1}"] {
+            for tail in ["", "x", "é"] {
+                let v = format!("{}{}", lead, tail).into_bytes();
+                judge(&rep, "cn=lead", &[("cn".to_string(), vec![v.clone()])], LenForm::Minimal, &evals, &mixed);
+                judge(&rep, "cn=lead", &[("cn".to_string(), vec![v.clone(), vec![0xff]])], LenForm::Minimal, &evals, &mixed);
+                let mut w = format!("{}{}", tail, lead).into_bytes();
+                w.extend_from_slice(b"");
+                judge(&rep, "cn=trail", &[("cn".to_string(), vec![w])], LenForm::Minimal, &evals, &mixed);
+            }
+        }
+    }
     if deep {
         // value lists of length 4 (4096 more) as the only attribute and next to a binary one
         let l4: Vec<Vec<Vec<u8>>> = value_lists(4).into_iter().filter(|l| l.len() == 4).collect();
